@@ -502,3 +502,91 @@ pub fn prop_table_json(kind: &str, name: &str) -> String {
         _ => "{\"ok\": true, \"some\": false}".into(),
     }
 }
+
+/// C09: the match sequence of ONE iterator (find_from / find_from_ascii / backends::find::<PikeVM>) against the
+/// sequence obtained by asking a FRESH iterator for its first match at each lastIndex cursor.  engine: "bt",
+/// "bta" (ASCII entry point), "pike", "pikea".  Returns both sequences (ranges and captures).
+pub fn iter_consistency_json(pattern: &[u32], flagstr: &str, no_opt: bool, hay: &str, start: usize, engine: &str) -> String {
+    fn show(m: &crate::api::Match) -> String {
+        let mut caps = Vec::new();
+        for c in &m.captures {
+            caps.push(match c {
+                None => "null".to_string(),
+                Some(r) => format!("[{}, {}]", r.start, r.end),
+            });
+        }
+        format!("[{}, {}, [{}]]", m.range.start, m.range.end, caps.join(", "))
+    }
+    match compile(pattern, flags_from(flagstr, no_opt)) {
+        Err(e) => format!("{{\"ok\": false, \"err\": {:?}}}", e),
+        Ok(cr) => {
+            let re: crate::api::Regex = cr.into();
+            if !(start >= hay.len() || hay.is_char_boundary(start)) {
+                return "{\"ok\": true, \"skip\": true}".into();
+            }
+            let first_at = |re: &crate::api::Regex, from: usize| -> Option<crate::api::Match> {
+                match engine {
+                    "bt" => re.find_from(hay, from).next(),
+                    "bta" => re.find_from_ascii(hay, from).next(),
+                    #[cfg(feature = "backend-pikevm")]
+                    "pike" => crate::api::backends::find::<crate::api::backends::PikeVMExecutor>(re, hay, from).next(),
+                    #[cfg(feature = "backend-pikevm")]
+                    "pikea" => crate::api::backends::find_ascii::<crate::api::backends::PikeVMExecutor>(re, hay, from).next(),
+                    _ => None,
+                }
+            };
+            let limit = hay.len() + 3;
+            let mut a: Vec<String> = Vec::new();
+            match engine {
+                "bt" => {
+                    for m in re.find_from(hay, start).take(limit) {
+                        a.push(show(&m));
+                    }
+                }
+                "bta" => {
+                    for m in re.find_from_ascii(hay, start).take(limit) {
+                        a.push(show(&m));
+                    }
+                }
+                #[cfg(feature = "backend-pikevm")]
+                "pike" => {
+                    for m in crate::api::backends::find::<crate::api::backends::PikeVMExecutor>(&re, hay, start).take(limit) {
+                        a.push(show(&m));
+                    }
+                }
+                #[cfg(feature = "backend-pikevm")]
+                "pikea" => {
+                    for m in crate::api::backends::find_ascii::<crate::api::backends::PikeVMExecutor>(&re, hay, start).take(limit) {
+                        a.push(show(&m));
+                    }
+                }
+                _ => return "{\"ok\": false, \"err\": \"engine not built\"}".into(),
+            }
+            // the lastIndex unfolding with a fresh iterator per step
+            let mut b: Vec<String> = Vec::new();
+            let mut cursor = Some(start);
+            while let Some(c) = cursor {
+                if c > hay.len() || b.len() >= limit {
+                    break;
+                }
+                match first_at(&re, c) {
+                    None => cursor = None,
+                    Some(m) => {
+                        b.push(show(&m));
+                        cursor = if m.range.end != m.range.start {
+                            Some(m.range.end)
+                        } else {
+                            // one character past an empty match
+                            let mut n = m.range.end + 1;
+                            while n < hay.len() && !hay.is_char_boundary(n) {
+                                n += 1;
+                            }
+                            if m.range.end >= hay.len() { None } else { Some(n) }
+                        };
+                    }
+                }
+            }
+            format!("{{\"ok\": true, \"same\": {}, \"a\": [{}], \"b\": [{}]}}", a == b, a.join(", "), b.join(", "))
+        }
+    }
+}
